@@ -13,9 +13,12 @@ const version = 0x13
 
 type blk [128]uint64
 
+//go:norace
 func le32(v uint32) []byte { var b [4]byte; binary.LittleEndian.PutUint32(b[:], v); return b[:] }
 
 // HPrime is the variable-length hash H' of RFC 9106 §3.3.
+//
+//go:norace
 func HPrime(tagLen int, in []byte) []byte {
 	msg := append(le32(uint32(tagLen)), in...)
 	if tagLen <= 64 {
@@ -33,6 +36,8 @@ func HPrime(tagLen int, in []byte) []byte {
 }
 
 // gb is the BlaMka quarter round GB of RFC 9106 §3.6.
+//
+//go:norace
 func gb(v *[16]uint64, a, b, c, d int) {
 	lo := func(x uint64) uint64 { return x & 0xffffffff }
 	v[a] = v[a] + v[b] + 2*lo(v[a])*lo(v[b])
@@ -47,6 +52,8 @@ func gb(v *[16]uint64, a, b, c, d int) {
 
 // permP is the permutation P on eight 16-byte registers given as the word
 // indices of v0..v15.
+//
+//go:norace
 func permP(r *blk, idx [16]int) {
 	var v [16]uint64
 	for i, k := range idx {
@@ -66,6 +73,8 @@ func permP(r *blk, idx [16]int) {
 }
 
 // compressG is G(X, Y) of RFC 9106 §3.5.
+//
+//go:norace
 func compressG(x, y *blk) blk {
 	var r blk
 	for i := range r {
@@ -93,6 +102,7 @@ func compressG(x, y *blk) blk {
 	return z
 }
 
+//go:norace
 func blkFromBytes(b []byte) (o blk) {
 	for i := range o {
 		o[i] = binary.LittleEndian.Uint64(b[8*i:])
@@ -100,6 +110,7 @@ func blkFromBytes(b []byte) (o blk) {
 	return
 }
 
+//go:norace
 func (b *blk) bytes() []byte {
 	out := make([]byte, 1024)
 	for i, w := range b {
@@ -111,6 +122,8 @@ func (b *blk) bytes() []byte {
 // Hash computes the Argon2 tag. memBlocks is the number of 1 KiB blocks that
 // are actually used (the caller decides m', RFC 9106: 4·p·⌊m/4p⌋); mParam is
 // the value of m that enters H0. For the RFC they coincide up to rounding.
+//
+//go:norace
 func Hash(y int, pw, salt, secret, ad []byte, t, mParam, memBlocks, p uint32, tagLen int) []byte {
 	if t < 1 || p < 1 || tagLen < 1 || memBlocks < 8*p || memBlocks%(4*p) != 0 {
 		panic("argon2ref: parameters out of domain")
@@ -215,6 +228,8 @@ func Hash(y int, pw, salt, secret, ad []byte, t, mParam, memBlocks, p uint32, ta
 }
 
 // RFC computes exactly RFC 9106 §3.2: m' = 4·p·⌊m/(4·p)⌋ (requires m ≥ 8p).
+//
+//go:norace
 func RFC(y int, pw, salt, secret, ad []byte, t, m, p uint32, tagLen int) []byte {
 	return Hash(y, pw, salt, secret, ad, t, m, m/(4*p)*(4*p), p, tagLen)
 }
